@@ -66,6 +66,14 @@ class VDeco2(VDeco):
     pass
 
 
+class VDecoKw(PoolDecorator):
+    """A decorator written for the all-keyword `__type__` syntax: its target is a keyword-only parameter."""
+
+    def __init__(self, *args, target, **kwargs):
+        super().__init__(target)
+        _construct(self, args, kwargs)
+
+
 class VDecoFalsy(VDeco):
     """A decorator whose truth value is False (e.g. a switch that is turned off)."""
 
@@ -378,6 +386,6 @@ class VSvcScout(object):
 
 
 # every recording class is also reachable through a namespace class and an alternative constructor
-for _cls in (VCtrl, VDeco, VDeco2, VDecoFalsy, VPool, VPoolEmpty, VSvcPool, VSvcEmpty, VSvcCtrl, VSvcTrioDeco, VSvcDeco, VSvcAgain, VSvcStubborn, VSvcWaiter, VSvcThread):
+for _cls in (VCtrl, VDeco, VDeco2, VDecoKw, VDecoFalsy, VPool, VPoolEmpty, VSvcPool, VSvcEmpty, VSvcCtrl, VSvcTrioDeco, VSvcDeco, VSvcAgain, VSvcStubborn, VSvcWaiter, VSvcThread):
     setattr(Site, _cls.__name__, _cls)
     _cls.build = classmethod(_build)
